@@ -1180,3 +1180,14 @@ package rux
 //@   ensures inv: wInv(&c.writer)
 //@   ensures status_given: status > 0 && old(c.writer.length) == -1 ==> (c.writer.length >= 0 ? hdrStatus(c.writer.Writer) == status : c.writer.status == status)
 //@   ensures failure_is_recorded: renderFailed(c.writer.Writer) ==> len(c.Errors) == old(len(c.Errors)) + 1
+
+// ---------------------------------------------------------------------------
+// Context binding wrappers (C18)
+//@ func (*Context).AutoBind [C18]
+//@   requires c.Req != nil && c.Req.URL != nil
+//@   modifies decodedKind(refof(obj)), decodedFrom(refof(obj)), validatedOK(refof(obj)), c.Req.Form, c.Req.PostForm, c.Req.MultipartForm
+//@   ensures success_means_validated: result == nil && binding.Validator != nil ==> validatedOK(refof(obj))
+//@ func (*Context).Bind [C18]
+//@   requires c.Req != nil && c.Req.URL != nil
+//@   modifies decodedKind(refof(obj)), decodedFrom(refof(obj)), validatedOK(refof(obj)), c.Req.Form, c.Req.PostForm, c.Req.MultipartForm
+//@   ensures success_means_validated: result == nil && binding.Validator != nil ==> validatedOK(refof(obj))
